@@ -639,7 +639,17 @@ pub fn run(input: &Value) -> Case {
         if !cuts.is_empty() {
             tags.push("chunked".into());
         }
-        if input["known_class"].is_array() {
+        // SGR events / face reports with an inexpressible parameter (7, 27, 39, 49 as a parameter of its own)
+        let inexpr = rs.iter().any(|r| {
+            matches!(r["t"].as_str(), Some("sgr") | Some("facerep"))
+                && r["p"].as_str().map(|p| sgr_has_inexpressible(p)).unwrap_or(false)
+        });
+        if inexpr {
+            let mut kc: Vec<Value> = j["known_class"].as_array().cloned().unwrap_or_default();
+            kc.push(json!("sgr-inexpressible-report"));
+            j["known_class"] = Value::Array(kc);
+        }
+        if j["known_class"].is_array() {
             tags.push("known_class".into());
         }
         Case {
@@ -719,7 +729,31 @@ fn g_name(rng: &mut Rng) -> Vec<u64> {
     (0..n).map(|_| if rng.chance(1, 8) { rng.below(256) } else { 32 + rng.below(95) }).collect()
 }
 
-/// a well-formed, expressible SGR parameter string (1..4 units, semicolon and colon forms)
+/// does the parameter string contain 7 / 27 / 39 / 49 as a parameter of its own (not as an argument of
+/// a 38 / 48 / 58 colour specification)?
+fn sgr_has_inexpressible(p: &str) -> bool {
+    let groups: Vec<&str> = p.split(';').collect();
+    let mut i = 0;
+    while i < groups.len() {
+        let g = groups[i];
+        if matches!(g, "38" | "48" | "58") {
+            // semicolon form: 5;n or 2;r;g;b
+            match groups.get(i + 1) {
+                Some(&"5") => i += 3,
+                Some(&"2") => i += 5,
+                _ => i += 1,
+            }
+            continue;
+        }
+        if matches!(g.trim_start_matches('0'), "7" | "27" | "39" | "49") {
+            return true;
+        }
+        i += 1;
+    }
+    false
+}
+
+/// a well-formed SGR parameter string (1..4 units, semicolon and colon forms)
 fn g_sgr(rng: &mut Rng) -> String {
     let mut parts = vec![];
     for _ in 0..1 + rng.below(4) {
@@ -816,7 +850,7 @@ fn g_report(rng: &mut Rng) -> Value {
             let err = if rng.chance(1, 2) {
                 Value::Null
             } else {
-                let max = if rng.chance(1, 6) { 80 } else { 12 };
+                let max = if rng.chance(1, 6) { 40 } else { 12 };
                 let t: Vec<u8> = g_text(rng, max).into_iter().filter(|b| *b != 27).collect();
                 if t == b"OK" { json!([69]) } else { json!(t) }
             };
@@ -854,7 +888,7 @@ fn g_report(rng: &mut Rng) -> Value {
             }
         }
         _ => {
-            let max = if rng.chance(1, 6) { 200 } else { 10 };
+            let max = if rng.chance(1, 6) { 60 } else { 10 };
             let t: Vec<u8> = g_text(rng, max).into_iter().filter(|b| *b != 27).collect();
             json!({"t": "paste", "text": t})
         }
